@@ -268,6 +268,17 @@ pub fn decode_build_case(t: &mut Tape, x: &mut Tape, max_n: usize, cap: Option<u
                 edges.push((label[a], label[b], k(t)));
             }
         }
+    } else if large && t.chance(1, 4) {
+        // fan: one hub before (or one sink after) every other function, beyond 255
+        // edges at one function for the biggest cases
+        let hub = t.below(n);
+        let out = t.chance(1, 2);
+        for v in 0..n {
+            if v != hub {
+                let k = if t.chance(1, 2) { Kind::Contains } else { Kind::Logic };
+                edges.push(if out { (hub, v, k) } else { (v, hub, k) });
+            }
+        }
     } else if n >= 1 {
         let max_m = if large {
             [n / 4, n / 2, n, n / 8][t.below(4)]
